@@ -2,6 +2,7 @@ import SSV.Model.Relay
 import SSV.Proofs.RelayStep
 import SSV.Proofs.RelayReply
 import SSV.Proofs.RelayProgress
+import SSV.Proofs.RelayBatch
 /-
 C11 — property theorems (model: SSV/Model/Relay.lean; invariants: SSV/Proofs/Relay.lean).
 
@@ -139,6 +140,39 @@ theorem enqueued_head_leaves_partial (cfg : Config) (st : State) (sid : Nat) (s 
 example : ∃ (st : State) (s : Sess), st.sess 0 = some s ∧ s.started = true ∧ s.pc = .idle ∧ s.queue = [⟨.dom 7 53, 100⟩] :=
   ⟨run ⟨4, true, true, false, none, fun s => s⟩ State.init [.recv 1 1 (some ⟨.dom 7 53, 100⟩), .initOk 0], _, rfl, rfl, rfl, rfl⟩
 
+/-- Gen side condition for the four recvmmsg/sendmmsg relay loops (NAT + session, uplink + downlink): every
+send-side vector is filled at the kept-counter, the counter is declared per batch and incremented once after the
+fills, the slice handed to `WriteMsgs` ends at the counter, message `i` points at slot `i`, a downlink reads message
+`i` from buffer `i`. Fails to elaborate when an index expression changes (e.g. `siovec[i]` for `siovec[ns]`). -/
+theorem code_batch_facts : codeBatchOK = true := by decide
+
+/-- **batch_sends_exactly_kept.** For every batch (any length up to the vector size), every pattern of dropped
+messages inside it and whatever EARLIER batches left in the send vector: the messages handed to sendmmsg are
+exactly the kept ones, in order, each with its own header and payload (`α` = a re-packed datagram). Hence a batched
+relay loop behaves as the per-datagram loop of the model (`down` / `take`…`readSend`) applied to the batch in order. -/
+theorem batch_sends_exactly_kept {α : Type} (slots : List α) (rx : List (Option α)) (h : rx.length ≤ slots.length) :
+    (batchSend .counter slots rx).2 = rx.filterMap id :=
+  Relay.batch_sends_kept slots rx h
+
+/-- … for the fill mode each of the four loops of the CURRENT source uses -/
+theorem batch_sends_exactly_kept_code {α : Type} : ∀ p ∈ SSV.Gen.C11.batchProgs, ∀ fill, progFill p.2 = some fill →
+    ∀ (slots : List α) (rx : List (Option α)), rx.length ≤ slots.length → (batchSend fill slots rx).2 = rx.filterMap id := by
+  intro p hp fill hf slots rx h
+  have hall := code_batch_facts
+  simp only [codeBatchOK, Bool.and_eq_true, List.all_eq_true] at hall
+  have hp' := (hall.2 p hp).1
+  simp only [beq_iff_eq] at hp'
+  rw [hp'] at hf
+  cases hf
+  exact batch_sends_exactly_kept slots rx h
+
+example : (batchSend .counter [70, 71, 72] [none, some 5, none, some 6]).2 = [5, 6] := by decide
+
+/-- the negation for a loop that fills at the receive index (`siovec[i]`): a dropped message in front of a good one
+makes the relay send a stale entry of an earlier batch instead of the good reply -/
+theorem recv_index_fill_sends_stale :
+    (batchSend .recvIndex [70, 71] [none, some 5]).2 = [70] ∧ [none, some 5].filterMap id = [5] := by decide
+
 /-- address-keyed relays: a datagram from another address never reaches this session (its key IS its address) -/
 theorem nat_keyed_by_address (cfg : Config) (hb : cfg.byAddr = true) (st : State) (key : Key) (src : Addr)
     (r : Option Pkt) (h : key ≠ src) : step cfg st (.recv key src r) = st := by
@@ -157,4 +191,8 @@ end SSV.C11
 #print axioms SSV.C11.replies_to_owner_code
 #print axioms SSV.C11.ss2022_follows_address
 #print axioms SSV.C11.enqueued_head_leaves_partial
+#print axioms SSV.C11.code_batch_facts
+#print axioms SSV.C11.batch_sends_exactly_kept
+#print axioms SSV.C11.batch_sends_exactly_kept_code
+#print axioms SSV.C11.recv_index_fill_sends_stale
 #print axioms SSV.C11.nat_keyed_by_address
